@@ -523,6 +523,224 @@ def run_mixed(chk, seed, corr_lines):
                         chk.violation(cid, f"(R Rt) A - I = {e:.2e}: no probe reproduced the inverse although a generic initial vector spans the whole space", payload)
 
 
+
+# ------------------------------------------------------------------------------------------------ coupled model
+
+def coupled_line(A, v, mi, tol):
+    """A (*b,n,n), v (*b,n,p) float64 -> `lzm` line; column order: init vector major, flat batch index minor"""
+    n, p = v.shape[-2], v.shape[-1]
+    Af, vf = A.reshape(-1, n, n), v.reshape(-1, n, p)
+    nb = Af.shape[0]
+    amap, vecs = [], []
+    for c in range(p):
+        for b in range(nb):
+            amap.append(str(b))
+            vecs.append(fvec(vf[b][:, c]))
+    tolbits = "d" if tol is None else bits(tol)
+    return f"lzm {n} {mi} {tolbits} {p * nb} {'|'.join(fmat(Af[b]) for b in range(nb))} {','.join(amap)} {'|'.join(vecs)}"
+
+
+def prefix_len(offdiag, thr=1e-3):
+    """number of leading Lanczos vectors before the column's own breakdown: 1 + leading off-diagonals above the margin"""
+    m = 1
+    for x in offdiag:
+        if not (x > thr):
+            break
+        m += 1
+    return m
+
+
+def column_prefix_fails(Ab, Qc, Tc, m, tol):
+    """the single-column theorems on the first m vectors of one column (dense float64 spec)"""
+    Q, T = Qc[:, :m], Tc[:m, :m]
+    if not (torch.isfinite(Q).all() and torch.isfinite(T).all()):
+        return [f"non-finite entries in its first {m} vectors"]
+    fails = []
+    sc = max(1.0, float(Ab.abs().max()))
+    e = (Q.T @ Q - torch.eye(m, dtype=F64)).abs().max().item()
+    if e > tol:
+        fails.append(f"QtQ-I = {e:.1e} on its first {m} vectors")
+    e = (Q.T @ Ab @ Q - T).abs().max().item()
+    if e > tol * sc:
+        fails.append(f"QtAQ-T = {e:.1e} on its first {m} vectors")
+    if m > 1:
+        e = (Ab @ Q - Q @ T)[:, : m - 1].abs().max().item()
+        if e > tol * sc:
+            fails.append(f"AQ-QT = {e:.1e} outside the last of its first {m} vectors")
+    return fails
+
+
+def run_coupled(chk, seed, lines):
+    """Multi-column calls replayed as ONE run of the coupled Lean model (`lanczosMulti`): shared iteration counter, the
+    two torch.sum tests over all columns, break only when all columns are below the threshold.  Per column: the prefix
+    before that column's own breakdown must satisfy the single-column invariants (spec) and agree with the model."""
+    from linear_operator.utils.lanczos import lanczos_tridiag
+    sizes = (4, 6) if chk.tier == "quick" else (3, 4, 5, 6, 8)
+    batches = ((), (2,), (2, 2)) if chk.tier == "quick" else ((), (2,), (2, 2), (3,), (1, 2))
+    for kind in ("generic", "mixed", "rankdef", "eigcol", "tolneg"):
+        for n in sizes:
+            for batch in batches:
+                for p in (1, 2, 3):
+                    nb = 1
+                    for b in batch:
+                        nb *= b
+                    if p * nb == 1 and kind != "tolneg":
+                        continue  # single column: the per-column correspondence of layer B
+                    if kind in ("mixed", "eigcol") and p == 1:
+                        continue
+                    for mk in (("n", "half", "n+2") if kind == "generic" else ("n",)):
+                        mi = budgets(n)[mk]
+                        hz = f"/{HAZARD64}" if kind == "eigcol" else ""
+                        cid = f"C09/coupled/{kind}/n={n}/b={'x'.join(map(str, batch)) or '-'}/p={p}/mi={mk}/f64"
+                        g = gen_for(seed, cid)
+                        tol = -1.0 if kind == "tolneg" else None
+                        cdef = None
+                        if kind == "rankdef":
+                            A, dim = make_A(g, "rankdef", n, batch)
+                        elif kind == "eigcol":
+                            perm = torch.stack([torch.randperm(n, generator=g) for _ in range(nb)]).reshape(*batch, n)
+                            A = torch.diag_embed((perm + 1).to(F64))
+                            dim = n
+                        else:
+                            A, dim = make_A(g, "fullrank", n, batch)
+                        v = torch.randn(*batch, n, p, generator=g, dtype=F64)
+                        if kind == "mixed":
+                            w, V = torch.linalg.eigh(A)
+                            cdef = int(torch.randint(0, p, (1,), generator=g))
+                            coef = 1.0 + torch.rand(*batch, 2, generator=g, dtype=F64)
+                            v[..., :, cdef] = coef[..., 0:1] * V[..., :, 0] + coef[..., 1:2] * V[..., :, n - 1]
+                        if kind == "eigcol":
+                            cdef = int(torch.randint(0, p, (1,), generator=g))
+                            v[..., :, cdef] = 0.0
+                            v[..., 1, cdef] = 2.0  # 2 e_1: q_0 = e_1 exactly, A q_0 - alpha_0 q_0 = 0 exactly
+                        payload = {"kind": "coupled", "seed": seed, "cell": cid}
+                        chk.case(f"{cid} A0={A.reshape(-1)[:3].tolist()}")
+                        chk.count(f"coupled={kind}")
+                        kw = {} if tol is None else {"tol": tol}
+                        try:
+                            q, t = lanczos_tridiag(lambda x: A @ x, mi, dtype=F64, device=A.device, matrix_shape=A.shape[-2:],
+                                                   batch_shape=A.shape[:-2], init_vecs=v, **kw)
+                        except Exception as e:  # noqa: BLE001
+                            chk.violation(cid, f"raised {type(e).__name__}: {str(e)[:100]}", payload)
+                            continue
+                        if p == 1:
+                            q, t = q.unsqueeze(0), t.unsqueeze(0)
+                        m = q.shape[-1]
+                        if tuple(q.shape) != (p, *batch, n, m) or tuple(t.shape) != (p, *batch, m, m) or not 1 <= m <= min(mi, n):
+                            chk.violation(cid, f"shapes q={tuple(q.shape)} t={tuple(t.shape)}", payload)
+                            continue
+                        Af = A.reshape(-1, n, n)
+                        qf, tf = q.reshape(p, nb, n, m), t.reshape(p, nb, m, m)
+                        fails, cols = [], []
+                        exp = {"generic": min(mi, n), "mixed": min(mi, n), "eigcol": min(mi, n), "rankdef": min(mi, n, dim), "tolneg": min(mi, n, 2)}[kind]
+                        if m != exp and (kind != "rankdef" or dim <= 9):
+                            fails.append(f"count {m}, expected {exp}")
+                        for c in range(p):
+                            for b in range(nb):
+                                Qc, Tc = qf[c, b], tf[c, b]
+                                off = torch.diagonal(Tc, 1).tolist() if m > 1 else []
+                                mc = prefix_len(off)
+                                deficient = (c == cdef)
+                                want = m if not deficient else (2 if kind == "mixed" else 1)
+                                if kind == "rankdef":
+                                    want = mc
+                                if mc < min(want, m):
+                                    fails.append(f"column (init {c}, batch {b}): off-diagonal entry {mc - 1} of T is {off[mc - 1]:.1e}, no breakdown expected before vector {want}")
+                                mc = min(mc, want)
+                                fails += [f"column (init {c}, batch {b}): " + f for f in column_prefix_fails(Af[b], Qc, Tc, mc, 1e-7)]
+                                if not (torch.equal(Tc, Tc.T) or bool(torch.isnan(Tc).any())):
+                                    fails.append(f"column (init {c}, batch {b}): T not symmetric")
+                                if not deficient and not (torch.isfinite(Qc).all() and torch.isfinite(Tc).all()):
+                                    fails.append(f"column (init {c}, batch {b}): non-finite entries")
+                                if deficient:
+                                    hcid = cid + f"/exhausted-column{'' if hz else '/' + HAZARD64}{hz}"
+                                    chk.case(hcid)
+                                    if not (torch.isfinite(Qc).all() and torch.isfinite(Tc).all()):
+                                        chk.violation(hcid, f"column (init {c}, batch {b}): non-finite entries after its Krylov space was exhausted "
+                                                      "(its residual, exactly 0, is divided by its norm while another column keeps the loop running)", payload)
+                                cols.append((c, b, Qc, Tc, mc))
+                        if fails:
+                            chk.violation(cid, f"n={n} max_iter={mi} batch={batch} p={p}: " + "; ".join(fails[:3]), payload)
+                            continue
+                        lines.append((cid, kind, m, cols, coupled_line(A, v, mi, tol), payload, cdef))
+
+
+def check_coupled(chk, lines):
+    if not lines:
+        return
+    outs = chk.run_driver("C09", [c[4] for c in lines])
+    if outs is None:
+        return
+    for (cid, kind, m, cols, line, payload, cdef), out in zip(lines, outs):
+        d = dict(kv.split("=", 1) for kv in out.split() if "=" in kv)
+        if d.get("err") != "ok":
+            chk.corr_break(cid, f"coupled model says {out[:80]} but the implementation returned", payload)
+            continue
+        cm, passes = int(d["count"]), int(d["passes"])
+        Qs = [pmat(x) for x in d["q"].split("|")]
+        Ts = [pmat(x) for x in d["t"].split("|")]
+        sup = pmat(d["sup"])  # C x L: every beta written (the one of the breaking iteration included)
+        n_iter = min(int(line.split()[2]), int(line.split()[1]))
+        if len(Qs) != len(cols):
+            chk.corr_break(cid, f"coupled model returned {len(Qs)} columns for {len(cols)}", payload)
+            continue
+        if kind == "tolneg":
+            exp_p = chk_extra_passes(n_iter)
+            if passes != exp_p:
+                chk.corr_break(cid, f"tol = -1: the model ran {passes} extra passes, {exp_p} expected", payload)
+                continue
+        elif passes != 0:
+            chk.count("coupled_discard=extra-passes")
+            continue
+        # robustness of every continue / break decision of the shared loop, read off the model's betas
+        L = sup.shape[-1] if sup.numel() else 0
+        own = [prefix_len(sup[i].tolist()[: max(cm - 1, 0)]) for i in range(len(cols))] if L else [1] * len(cols)
+        robust = True
+        for j in range(cm - 1):  # the loop went on after beta_j was written
+            if not any(own[i] - 1 > j for i in range(len(cols))):
+                robust = False
+        if cm < n_iter and kind != "tolneg" and L >= cm:
+            last = sup[:, cm - 1]
+            if not bool(((last.abs() < 1e-9) | torch.isnan(last)).all()):
+                robust = False
+        if cm != m:
+            if robust:
+                chk.corr_break(cid, f"count: implementation {m}, coupled model {cm}", payload)
+            else:
+                chk.count("coupled_discard=margin")
+            continue
+        bad = None
+        for i, (c, b, Qc, Tc, mc) in enumerate(cols):
+            k = min(mc, own[i])
+            if kind == "eigcol" and c == cdef:
+                # exact breakdown in the first step: the whole column must agree, NaN pattern included
+                same_nan = torch.equal(torch.isnan(Qc), torch.isnan(Qs[i])) and torch.equal(torch.isnan(Tc), torch.isnan(Ts[i]))
+                e = max((torch.nan_to_num(Qc, nan=7.0) - torch.nan_to_num(Qs[i], nan=7.0)).abs().max().item(),
+                        (torch.nan_to_num(Tc, nan=7.0) - torch.nan_to_num(Ts[i], nan=7.0)).abs().max().item())
+                if not same_nan or e > 1e-9:
+                    bad = f"column (init {c}, batch {b}) with an exactly vanishing first residual: NaN pattern / entries differ from the coupled model ({e:.1e})"
+                elif not bool(torch.isnan(Qs[i][:, 1:]).all()):
+                    bad = f"column (init {c}, batch {b}): the model does not produce 0/0 = NaN after the exact breakdown"
+                continue
+            if k < mc:
+                chk.count("coupled_discard=column-margin")
+            e = max((Qs[i][:, :k] - Qc[:, :k]).abs().max().item(),
+                    (Ts[i][:k, :k] - Tc[:k, :k]).abs().max().item() / max(1.0, Tc[:k, :k].abs().max().item()))
+            if not e <= 1e-7 * max(1, k):
+                bad = f"column (init {c}, batch {b}): first {k} vectors / T block differ from the coupled model by {e:.2e}"
+        if bad:
+            chk.corr_break(cid, bad, payload)
+        else:
+            chk.traces_validated += 1
+            chk.count("coupled_agree")
+
+
+def chk_extra_passes(n_iter):
+    """tol = -1: every inner product is above tol, so the first loop iteration with a re-orthogonalisation block runs all
+    10 passes, `could_reorthogonalize` stays False and the loop is left (no block at all when num_iter = 2)"""
+    return 10 if n_iter > 2 else 0
+
+
 # ------------------------------------------------------------------------------------------------ layer C
 
 class Tap:
@@ -999,12 +1217,16 @@ def run(chk):
             run_lanczos_cell(chk, seed, *cell, corr_lines, rep=rep)
     run_special(chk, seed, corr_lines)
     run_mixed(chk, seed, corr_lines)
+    coupled_lines = []
+    run_coupled(chk, seed, coupled_lines)
     run_ops(chk, seed, post_lines)
     run_scaled(chk, seed)
     run_slq(chk, seed)
     check_corr(chk, corr_lines)
     check_post(chk, post_lines)
-    chk.extra["correspondence_lines"] = len(corr_lines) + len(post_lines)
+    check_coupled(chk, coupled_lines)
+    chk.extra["correspondence_lines"] = len(corr_lines) + len(post_lines) + len(coupled_lines)
+    chk.extra["coupled_lines"] = len(coupled_lines)
     chk.rule = ("cells = spectrum family {fullrank, rankdef, repeated, int} x n in 2..64 x batch shape x init kind {single, multi(3), "
                 "random(1,2) via seeded torch.randn} x max_iter in {1,2,n/2,n-1,n,n+2} x {f32,f64} x optional tol; values are drawn "
                 "from generators keyed by (VERIF_SEED, cell id); plus eigenvector-start and 1x1 cells, operator cells "
@@ -1034,6 +1256,10 @@ def replay(chk, payload):
     elif p["kind"] == "mixed":
         run_mixed(chk, seed, corr)
         check_corr(chk, corr)
+    elif p["kind"] == "coupled":
+        cl = []
+        run_coupled(chk, seed, cl)
+        check_coupled(chk, cl)
     elif p["kind"] == "scaled":
         run_scaled(chk, seed)
     elif p["kind"] == "ops":
